@@ -307,9 +307,7 @@ def op_gen_seq(op, root, opdir):
           "connects": list(op.get("connects", []))}
     if op.get("from_file"):
         paths = _write_files(opdir, op.get("files", []))
-        kw["inpath"] = [] if op.get("files_as_library") else paths
-    if not kw["inpath"] and not op.get("via_main"):
-        del kw["inpath"]          # API use without -f: gen_params' own default applies
+        kw["inpath"] = paths
         kw["from_file"] = list(op["from_file"])
     gen_seq(**kw)
 
@@ -586,6 +584,23 @@ def exec_history(hist):
 
 
 def _dispatch(op, root, opdir, cap):
+    if op.get("exdev"):
+        # fault: the temporary directory is on another file system than the output directory, so the publishing
+        # rename fails with EXDEV and shutil.move falls back to copy + delete
+        import errno
+        real_rename = os.rename
+        tmpdir = os.path.join(root, "tmp")
+
+        def rename(src, dst, *a, **k):
+            if str(src).startswith(tmpdir) and not str(dst).startswith(tmpdir):
+                raise OSError(errno.EXDEV, "Invalid cross-device link (injected)")
+            return real_rename(src, dst, *a, **k)
+
+        os.rename = rename
+        try:
+            return _dispatch(dict(op, exdev=False), root, opdir, cap)
+        finally:
+            os.rename = real_rename
     if op["op"] == "gen_params":
         op_gen_params(op, root, opdir, cap)
     elif op["op"] == "gen_seq":
